@@ -119,6 +119,14 @@ def run(ctx):
         lines.append(f"smallm {common.enc(Wq)} {common.enc(aq)} {common.enc(impl.frv(mu[i]))} {common.enc(impl.frv(mu[j]))}")
         meta.append(("smallm", r, (name, mu.tolist(), i, j)))
         dl = get_delta(mu.copy(), W, alpha).flatten()
+        if rng.random() < 0.25:
+            # whole-number value sets are legal in any numeric dtype: the gaps must not depend on how the array is stored
+            mu = np.round(mu * 2)
+            dl = get_delta(mu.astype(np.int64), W, alpha).flatten()
+            r = float(get_smallmij(mu[i].astype(np.int64), mu[j].astype(np.int64), W, alpha))
+            lines[-1] = f"smallm {common.enc(Wq)} {common.enc(aq)} {common.enc(impl.frv(mu[i]))} {common.enc(impl.frv(mu[j]))}"
+            meta[-1] = ("smallm", r, (name + " int64", mu.tolist(), i, j))
+            name = name + " int64"
         for k in range(K):
             lines.append(f"delta {common.enc(Wq)} {common.enc(aq)} {common.enc(impl.frm(mu))} {common.enc(k)}")
             meta.append(("delta", float(dl[k]), (name, mu.tolist(), k)))
